@@ -34,6 +34,15 @@ type cell struct {
 }
 
 var cells = []cell{
+	// attribute values of end tags, attribute names continued by a later text node, "/" as
+	// attribute separator: judged by the differential clause only (typed value == plain string)
+	{`<div>x</div title="{{.}}">after<i>z</i>`, "", nil, false},
+	{`<p>x</p data-x='{{.}}'><i>z</i>`, "", nil, false},
+	{`<a>x</a href="{{.}}"><i>z</i>`, "", nil, false},
+	{`<iframe src{{/*c*/}}doc="{{.}}" lang=en></iframe>`, "", nil, false},
+	{`<div alt{{/*c*/}}x="{{.}}">z</div>`, "", nil, false},
+	{`<img src{{/*c*/}}set='{{.}}'>`, "", nil, false},
+	{`<a/title="{{.}}">z</a>`, "", nil, false},
 	{`<p>{{.}}</p><i>z</i>`, "", []string{"HTML"}, false},
 	{`<div>a{{.}}b</div><i>z</i>`, "", []string{"HTML"}, false},
 	{`{{.}}<i>z</i>`, "", []string{"HTML"}, false},
@@ -354,7 +363,7 @@ func run(c *core.Ctx) {
 		}
 	}
 	c.SetExhaustive("cells x types x pointer depths x corpus")
-	c.Sample(kase{Template: util.Q(cells[9].tmpl), Type: "HTML", Ptr: 0, Contents: util.Q(corpus[4])})
+	c.Sample(kase{Template: util.Q(cells[16].tmpl), Type: "HTML", Ptr: 0, Contents: util.Q(corpus[4])})
 	r := c.Rng("soup")
 	n := c.N(300000, 4000000) / c.NShards
 	for i := 0; i < n; i++ {
